@@ -92,6 +92,12 @@ def gen_plan(seed, tier):
         st["code"] = r.pick([6, 7, 0x1234, 0xfffe, 0xffff])
       elif st["stype"] in ("flow", "aggregate"):
         st["table"] = r.pick([0xff, 0, 0, 1, 5])
+        # filters: entries the request's match subsumes, that output to port
+        st["sm"] = r.pick([0, 0, 0, 1, 2, 3, 4, 5])
+        st["sout"] = r.wpick([(5, W.OFPP_NONE), (3, r.randint(1, nports)),
+                              (1, W.OFPP_FLOOD), (1, W.OFPP_CONTROLLER),
+                              (1, W.OFPP_ALL), (1, W.OFPP_IN_PORT),
+                              (1, nports + 1)])
     elif k == "queue_config":
       st["port"] = r.wpick([(3, r.randint(1, nports)), (1, nports + 2)])
     elif k == "vendor":
@@ -103,12 +109,19 @@ def gen_plan(seed, tier):
       st["m"] = r.randrange(6)
       st["prio"] = r.pick([0, 1, 0x8000, 0xffff])
       st["cookie"] = r.randrange(1 << 64)
-      st["outp"] = r.randint(1, nports)
+      st["outp"] = r.wpick([(5, r.randint(1, nports)), (1, W.OFPP_FLOOD),
+                            (1, W.OFPP_CONTROLLER), (1, W.OFPP_ALL)])
+      if st["cmd"] == W.FC_ADD and r.chance(0.15):
+        # names a buffer that certainly does not exist
+        st["fbuf"] = r.pick([0x7fffffff, 4000])
     elif k == "packet_out":
       st["outp"] = r.wpick([(3, r.randint(1, nports)), (1, W.OFPP_FLOOD),
                             (1, nports + 1)])
       st["inp"] = r.wpick([(3, W.OFPP_NONE), (1, r.randint(1, nports))])
       st["buffer"] = r.wpick([(5, None), (2, r.pick([1, 2, 99, 0x7fffffff]))])
+      if st["buffer"] is None and r.chance(0.15):
+        # an action of a type the switch cannot know
+        st["badact"] = r.pick([12, 100, 0x7fff, 0xffff])
       if st["buffer"] is not None and r.chance(0.15):
         # request near the 16-bit length limit (a very long action list):
         # the error about it must still arrive
@@ -299,17 +312,25 @@ def _drive(sim, world, plan, known, hit_known):
       m = _match_alphabet(st["m"], nports)
       acts = [("output", st["outp"], 0xffff)]
       raw = W.enc_flow_mod(xid, m, st["cmd"], acts, cookie=st["cookie"],
-                           priority=st["prio"])
+                           priority=st["prio"],
+                           buffer_id=st.get("fbuf", W.NO_BUFFER))
       world.send(raw)
       if st["cmd"] == W.FC_ADD:
         key = (W.canon_match(m), st["prio"])
         if key not in model["flows"] and \
             len(model["flows"]) >= cfg["max_entries"]:
+          # refused: one error, and that is the whole answer (nothing else
+          # about the request is processed)
           E("error", xid, etype=W.ET_FLOW_MOD_FAILED,
             code=W.FMFC_ALL_TABLES_FULL, req=raw)
+          if st.get("fbuf") is not None:
+            sim.probes["refused_flow_mod_names_buffer"] += 1
         else:
           model["flows"][key] = {"cookie": st["cookie"], "actions": acts,
                                  "packets": 0, "bytes": 0}
+          if st.get("fbuf") is not None:
+            E("error", xid, etype=W.ET_BAD_REQUEST,
+              codes=(W.BRC_BUFFER_UNKNOWN, W.BRC_BUFFER_EMPTY), req=raw)
       elif st["cmd"] == W.FC_DELETE:
         # DELETE with description m removes what m subsumes; the C13
         # alphabet keeps this simple: only identical or match-all
@@ -325,10 +346,15 @@ def _drive(sim, world, plan, known, hit_known):
       if st.get("nact"):
         sim.probes["huge_refused_packet_out"] += 1
       bid = W.NO_BUFFER if st["buffer"] is None else st["buffer"]
-      raw = W.enc_packet_out(xid, bid, st["inp"],
-                             [("output", st["outp"], 0)] * st.get("nact", 1),
-                             data)
+      acts = [("output", st["outp"], 0)] * st.get("nact", 1)
+      if st.get("badact") is not None:
+        acts = [("raw", struct.pack("!HHL", st["badact"], 8, 0x2320))] + acts
+      raw = W.enc_packet_out(xid, bid, st["inp"], acts, data)
       world.send(raw)
+      if st.get("badact") is not None:
+        E("error", xid, etype=W.ET_BAD_ACTION,
+          codes=(W.BAC_BAD_TYPE, W.BAC_BAD_VENDOR, W.BAC_BAD_VENDOR_TYPE),
+          req=raw)
       if st["buffer"] is not None:
         # no buffer with that id can exist unless a frame step created it;
         # the C13 model does not track buffers, so only demand an error when
@@ -423,10 +449,18 @@ def _stats(world, model, st, xid, E, nports):
     world.send(W.enc_stats_request(xid, W.ST_DESC))
     E("stats", xid, stype=W.ST_DESC)
   elif t in ("flow", "aggregate"):
-    raw = W.enc_flow_stats_request(xid, {}, st["table"],
+    sm = _match_alphabet(st.get("sm", 0), nports)
+    so = st.get("sout", W.OFPP_NONE)
+    raw = W.enc_flow_stats_request(xid, sm, st["table"], out_port=so,
                                    aggregate=(t == "aggregate"))
     world.send(raw)
     flows = dict(model["flows"]) if st["table"] in (0, 0xff) else {}
+    csm = dict(W.canon_match(sm))
+    flows = {k: v for k, v in flows.items()
+             if _subsumes(csm, dict(k[0]))
+             and (so == W.OFPP_NONE
+                  or any(a[0] == "output" and a[1] == so
+                         for a in v["actions"]))}
     if st["table"] in (0, 0xff):
       E("stats", xid, stype=W.ST_FLOW if t == "flow" else W.ST_AGGREGATE,
         flows={k: dict(v) for k, v in flows.items()})
